@@ -86,7 +86,9 @@ def run(eng, rep, tier):
                                    if ev.result is not None] or [frozenset()])
     def _of_table(av):
         return any(l[0] == t_[0] and l[1][:len(t_[1])] == t_[1] for l in av.alias for t_ in tbl_locs)
-    tbl_sub = [ev for ev in own(summ) if ev.kind == "subscript" and ev.recv is not None and tbl_locs and _of_table(ev.recv)]
+    # (a constant index into a cell - `rules[0]` after the length test - is not a lookup by an input-derived key)
+    tbl_sub = [ev for ev in own(summ) if ev.kind == "subscript" and ev.recv is not None and tbl_locs and _of_table(ev.recv)
+               and not (ev.args and ev.args[0].has_const())]
     ob.decide("R6", "C14.1", fi, "table-lookups-use-get", len(gets) >= 2 and not tbl_sub,
               "table lookups use .get with defaults", "the parsing table is subscripted with input-derived keys", summ,
               site=(tbl_sub[0].site.to_json() if tbl_sub else None))
@@ -180,12 +182,27 @@ def run(eng, rep, tier):
         popped = frozenset().union(*[ev.recv.alias for ev in evs if _op(ev, ("pop", "popleft", "get"))] or [frozenset()])
         requeues = [ev for ev in evs if _op(ev, ("append", "extend", "put", "appendleft")) and ev.recv.alias & popped and ev.ctrl]
 
+        _hs = helpers_of(prog, f)
+
+        def _growth_test(e, pol):
+            return isinstance(e, ast.Compare) and len(e.ops) == 1 and any(
+                isinstance(c, ast.Call) and getattr(c.func, "id", "") == "len" for c in ast.walk(e)) and (
+                (isinstance(e.ops[0], ast.NotEq) and pol) or (isinstance(e.ops[0], ast.Eq) and not pol) or
+                (isinstance(e.ops[0], (ast.Gt, ast.Lt)) and pol))
+
         def grew(ev):
             for text, pol, _n in ev.facts:
                 try:
                     e = ast.parse(text, mode="eval").body
                 except SyntaxError:
                     continue
+                if isinstance(e, ast.Call) and pol:
+                    # `if self._add(sets, key, new):` - a private helper that adds and reports whether the set grew
+                    nm = e.func.attr if isinstance(e.func, ast.Attribute) else getattr(e.func, "id", None)
+                    h = _hs.get(nm) if nm and nm.startswith("_") else None
+                    if h is not None and any(isinstance(r, ast.Return) and r.value is not None and _growth_test(r.value, True)
+                                             for r in ast.walk(h)):
+                        return True
                 if isinstance(e, ast.Compare) and len(e.ops) == 1 and any(
                         isinstance(c, ast.Call) and getattr(c.func, "id", "") == "len" for c in ast.walk(e)):
                     if (isinstance(e.ops[0], ast.NotEq) and pol) or (isinstance(e.ops[0], ast.Eq) and not pol) or \
@@ -193,6 +210,13 @@ def run(eng, rep, tier):
                         return True
             return False
         guarded = [ev for ev in requeues if grew(ev)]
+        if not popped:
+            # no worklist is popped at all: the fixpoint is reached by other means (memoised recursion plus a completion
+            # pass, iteration until nothing changes) - its exactness is not a matter of re-queueing
+            rep.error("R10a", "C14.4", f.qname, "requeue-on-growth",
+                      "%s is not written as a worklist fixpoint any more; the rule cannot follow how the sets are completed"
+                      % meth, site=site_of(prog, f, f.node))
+            continue
         ob.decide("R10a", "C14.4", f, "requeue-on-growth", bool(popped) and bool(guarded),
                   "dependants are re-queued under the test `the set grew`",
                   "%s does not re-queue dependants when a set grows (or always does)" % meth, sm,
